@@ -175,6 +175,20 @@ class Abstractor:
             return "X" * k + "M?" + d[:6] + "/" + name[:6]
         return "?" + rel
 
+    def classify(self, rel):
+        """-> 'file' (a permanent file address), 'tmp' (a temp file), 'dir', or 'other'"""
+        parts = rel.split(os.sep)
+        d = self.u.depth
+        if len(parts) >= 2 and parts[1] == "tmp" and parts[0] in ("objects", "metadata", "refs"):
+            return "tmp" if len(parts) == 3 else "dir"
+        if parts[0] == "objects":
+            return "file" if len(parts) == d + 2 else ("dir" if len(parts) < d + 2 and len(parts) != 2 or len(parts) == 1 else "other")
+        if parts[0] == "refs" and len(parts) > 1 and parts[1] in ("pids", "cids"):
+            return "file" if len(parts) == d + 3 else "dir"
+        if parts[0] == "metadata":
+            return "file" if len(parts) == d + 3 else "dir"
+        return "dir" if rel == "" or parts[0] == "refs" else "other"
+
     def dir_area(self, rel):
         parts = rel.split(os.sep)
         if parts[0] == "objects":
